@@ -93,6 +93,27 @@ def build_go():
         os.environ["VERIF_SCHEMA"] = os.path.join(BUILD, "schema.sx")
         return binp, harn
 
+def build_race_harness():
+    """The harness built with the race detector (cgo needed), cached like the other binaries; None if it cannot be built."""
+    hsrc = sorted(glob.glob(os.path.join(VERIF, "harness", "zzverif", "*.go")))
+    with Lock("go"):
+        key = tree_hash(repo_sources() + hsrc)
+        stamp = os.path.join(BUILD, "race.stamp")
+        out = os.path.join(BUILD, "zzverif-race")
+        if os.path.exists(stamp) and open(stamp).read() == key and os.path.exists(out):
+            return out
+        for p in (out, stamp):
+            if os.path.exists(p):
+                os.remove(p)
+        ovp = os.path.join(BUILD, "overlay.json")
+        r = run(["go", "build", "-race", "-tags", "verif", "-overlay", ovp, "-o", out, "./internal/zzverif"], cwd=REPO,
+                env=dict(GOENV, CGO_ENABLED="1"))
+        if r.returncode != 0:
+            return None
+        with open(stamp, "w") as f:
+            f.write(key)
+        return out
+
 def build_lean(targets=()):
     """lake build of the model, the driver and the requested proof modules."""
     with Lock("lean"):
